@@ -13,6 +13,7 @@ open PlzVerif.Build
 inductive Tree where
   | file (c : String)
   | dir (es : List (String × String))      -- entries sorted by name
+  | fileOpt (c : String) (extra : Option String)   -- a file output plus a discovered optional output (`<out>.extra`)
 deriving DecidableEq, Repr
 
 inductive Cmd where
@@ -20,6 +21,9 @@ inductive Cmd where
   | catfirst               -- the same, but only the first input is read (the others are declared and ignored)
   | mkdir                  -- first input holds "name content" lines; output is a directory with one file per line
   | const (text : String)  -- `echo text > $OUT`
+  | catn                   -- like cat, but each input is preceded by its name as presented in $SRCS
+  | fg                     -- filegroup over one source file: the output IS the source (no command)
+  | opt                    -- like cat; additionally writes `$OUT.extra` (an optional output) iff the result is non-empty
 deriving DecidableEq, Repr
 
 structure Attrs where
@@ -34,9 +38,11 @@ deriving DecidableEq, Repr
 def pathSer : Tree → String
   | .file c => c
   | .dir es => String.join (es.map (·.2))
+  | .fileOpt c _ => c          -- optional outputs do not contribute to any hash (build_step.go:726)
 
 def cmdTag : Cmd → String
   | .cat => "cat" | .catfirst => "catfirst" | .mkdir => "mkdir" | .const t => "const:" ++ t
+  | .catn => "catn" | .fg => "fg" | .opt => "opt"
 
 /-- Rule pre-image restricted to what the generator varies, concatenated unframed in `ruleHash`'s order
     (label, sources, output, command). -/
@@ -46,6 +52,7 @@ def ruleSer (a : Attrs) : String :=
 def render : Tree → String
   | .file c => c
   | .dir es => String.join (es.map fun e => "./" ++ e.1 ++ "\n" ++ e.2)
+  | .fileOpt c _ => c          -- dependents only see the declared output
 
 def insertEntry (e : String × String) : List (String × String) → List (String × String)
   | [] => [e]
@@ -61,10 +68,27 @@ def exec (a : Attrs) (ins : List (String × Tree)) : Tree :=
   | .cat => .file (String.join (ins.map fun p => render p.2))
   | .catfirst => .file (match ins with | [] => "" | p :: _ => render p.2)
   | .const t => .file (t ++ "\n")
+  | .catn => .file (String.join (ins.map fun p => p.1 ++ "\n" ++ render p.2))
+  | .fg => .file (match ins with | [] => "" | p :: _ => render p.2)
+  | .opt =>
+    let c := String.join (ins.map fun p => render p.2)
+    .fileOpt c (if c.isEmpty then none else some c)
   | .mkdir =>
     match ins with
     | (_, .file c) :: _ => .dir (((c.splitOn "\n").filterMap parseLine).foldl (fun acc e => insertEntry e acc) [])
     | _ => .dir []
+
+def extraOf : Tree → Option String
+  | .fileOpt _ e => e
+  | _ => none
+
+/-- Moving outputs into plz-out as coded: declared outputs follow `mvCoded` (same hash ⇒ the old one stays);
+    optional outputs are moved when produced and NEVER removed when no longer produced (build_step.go:726-737 only
+    iterates over what the new run created), so an old `<out>.extra` lingers. -/
+def mvE2E (old new : Tree) : Tree :=
+  match new with
+  | .fileOpt c e => .fileOpt c (match e with | some x => some x | none => extraOf old)
+  | _ => mvCoded generatedFacts pathSer old new
 
 abbrev Stamp' := Stamp String String String
 abbrev Out' := Out String Tree String String String
@@ -72,7 +96,7 @@ abbrev Repo' := Repo String Attrs String String Tree
 abbrev Target' := Target String Attrs String
 
 def buildE2E (r : Repo') (sel : String → Bool) (out : Out') : Out' × List String :=
-  build generatedFacts exec ruleSer pathSer r sel out
+  build generatedFacts mvE2E exec ruleSer pathSer r sel out
 
 def cleanE2E (r : Repo') (sel : String → Bool) : List (String × Tree) :=
   clean exec r sel
